@@ -296,8 +296,9 @@ class V:
         idx = [self.vals.term(l) if z3.is_expr(l) else l for l in lab]
         return pd.Series(self._conc_cells(vals, nulls, kind), dtype=DT[kind], name=sname, index=pd.Index(idx, dtype="int64", name=index_name))
 
-    def frame(self, cols, n, labels=None, distinct_labels=False, index_name=None):
-        """cols: list of (label, kind[, nullable[, concrete values]]); duplicate labels allowed."""
+    def frame(self, cols, n, labels=None, distinct_labels=False, index_name=None, reverse=False):
+        """cols: list of (label, kind[, nullable[, concrete values]]); duplicate labels allowed.  labels=None: pandas' default
+        RangeIndex; reverse=True: the rows in reverse order (`df[::-1]`, a RangeIndex with step -1 when labels is None)."""
         lab = self.labels(labels, n, distinct_labels) if labels else list(range(n))
         data = []
         for ci, c in enumerate(cols):
@@ -312,16 +313,22 @@ class V:
                 vals, nulls = self.cells(prefix, kind, n, nullable)
             data.append((c[0], kind, vals, nulls))
         if self.sym:
+            if reverse:
+                lab = lab[::-1]
+                data = [(k, kind, vals[::-1], nulls[::-1]) for k, kind, vals, nulls in data]
             idx = symframe.Index(lab, name=index_name)
             return symframe.DataFrame([(k, symframe.Series(vals, nulls=nulls, dtype=DT[kind], index=idx.copy(), kind=("object" if kind == "object" else None)))
                                        for k, kind, vals, nulls in data], index=idx)
-        idx = pd.Index([self.vals.term(l) if z3.is_expr(l) else l for l in lab], dtype="int64", name=index_name)
+        if labels is None and index_name is None:
+            idx = pd.RangeIndex(n)  # what a frame built without an index has
+        else:
+            idx = pd.Index([self.vals.term(l) if z3.is_expr(l) else l for l in lab], dtype="int64", name=index_name)
         sers = [pd.Series(self._conc_cells(vals, nulls, kind), dtype=DT[kind], index=idx, name=k) for k, kind, vals, nulls in data]
         if not sers:
             return pd.DataFrame(index=idx)
         df = pd.concat(sers, axis=1)
         df.columns = [k for k, *_ in data]
-        return df
+        return df.iloc[::-1] if reverse else df
 
     def mi_frame(self, cols, n, levels, extra_filtered=0):
         """frame with a MultiIndex; levels: list of (level name, variable prefix) of int labels.  extra_filtered: that many more rows
